@@ -351,6 +351,14 @@ def parse_block(lines, i=0):
                 els, i = parse_block(lines, i + 1)
             body.append(("if", cond, b, els))
             continue
+        if ln == "do":
+            # do { ... } while (false);  - the idiom that makes a macro body one statement: a plain block
+            b, j = parse_block(lines, i + 1)
+            if j < len(lines) and re.match(r"^while\s*\(\s*(false|0)\s*\)\s*;?$", lines[j]):
+                body.append(b)
+                i = j + 1
+                continue
+            raise CxxSyntaxError("do-loop other than do { } while (false)")
         if ln == "else":
             raise CxxSyntaxError("else without if")
         if ln == "try":
@@ -395,7 +403,60 @@ def normalize_static(text):
     return out
 
 
-def parse_code_lines(raw_lines):
+MACRO_RX = re.compile(r"^[ \t]*#[ \t]*define[ \t]+(\w+)\(([^)]*)\)[ \t]*((?:.*\\\n)*.*)$", re.M)
+
+
+def collect_macros(text):
+    "function-like macros defined in a rendered file: name -> (parameter names, body text with continuations joined)"
+    out = {}
+    for m in MACRO_RX.finditer(text):
+        body = re.sub(r"\\\n", "\n", m.group(3))
+        out[m.group(1)] = ([a.strip() for a in m.group(2).split(",") if a.strip()], body)
+    return out
+
+
+def _split_args(text):
+    args, cur, depth, instr = [], [], 0, False
+    for i, ch in enumerate(text):
+        if ch == '"' and (i == 0 or text[i - 1] != "\\"):
+            instr = not instr
+        if not instr:
+            if ch in "(<[":
+                depth += 1
+            elif ch in ")>]":
+                depth -= 1
+            elif ch == "," and depth == 0:
+                args.append("".join(cur).strip())
+                cur = []
+                continue
+        cur.append(ch)
+    if "".join(cur).strip():
+        args.append("".join(cur).strip())
+    return args
+
+
+def expand_macros(lines, macros):
+    """Statement-level uses `NAME (args);` of the file's own function-like macros are replaced by the macro body with the
+    parameters substituted (whole words), split into the usual one-statement / one-brace lines."""
+    if not macros:
+        return lines
+    out = []
+    for ln in lines:
+        m = re.match(r"^(\w+)\s*\((.*)\)\s*;$", ln.strip())
+        if m and m.group(1) in macros:
+            params, body = macros[m.group(1)]
+            args = _split_args(m.group(2))
+            if len(args) == len(params):
+                for p_, a in zip(params, args):
+                    body = re.sub(rf"\b{re.escape(p_)}\b", lambda _m, a=a: a, body)
+                out += [x for x in normalize_static(body)]
+                continue
+        out.append(ln)
+    return out
+
+
+def parse_code_lines(raw_lines, macros=None):
+    raw_lines = expand_macros(list(raw_lines), macros or {})
     lines = [ln.strip() for ln in raw_lines]
     lines = [ln for ln in lines if ln != ""]
     if not lines:
